@@ -204,8 +204,71 @@ func (w *waBuilder) collectLeaves(v ssa.Value, leaves map[string]bool, d int) bo
 			leaves[accessPath(x)] = true
 			return true
 		}
+	case *ssa.Parameter:
+		if w.smallParam(x) {
+			leaves[accessPath(x)] = true
+			return true
+		}
 	}
 	return false
+}
+
+// smallParam: p is a parameter of a module function that is only ever called
+// statically, and every call site passes a value in {0,1}.
+func (w *waBuilder) smallParam(p *ssa.Parameter) bool {
+	fn := p.Parent()
+	if fn == nil {
+		return false
+	}
+	key := "param:" + fn.String() + "." + p.Name()
+	if v, ok := w.small[key]; ok {
+		return v
+	}
+	w.small[key] = true // assume during recursion
+	idx := -1
+	for i, q := range fn.Params {
+		if q == p {
+			idx = i
+		}
+	}
+	ok := idx >= 0
+	n := 0
+	for _, g := range w.P.ModuleFuncs() {
+		if !ok {
+			break
+		}
+		for _, b := range g.Blocks {
+			for _, in := range b.Instrs {
+				var rands [16]*ssa.Value
+				call, isCall := in.(ssa.CallInstruction)
+				for _, r := range in.Operands(rands[:0]) {
+					if r == nil || *r != ssa.Value(fn) {
+						continue
+					}
+					if !isCall || call.Common().StaticCallee() != fn || call.Common().Value != ssa.Value(fn) {
+						ok = false // address taken
+						continue
+					}
+				}
+				if isCall && call.Common().StaticCallee() == fn && call.Common().Value == ssa.Value(fn) {
+					if _, isGo := in.(*ssa.Call); !isGo {
+						ok = false
+						continue
+					}
+					args := call.Common().Args
+					if idx >= len(args) || !w.smallValue(args[idx], g) {
+						ok = false
+					}
+					n++
+				}
+			}
+		}
+	}
+	if n == 0 {
+		ok = false
+	}
+	w.small[key] = ok
+	return ok
 }
 
 func (w *waBuilder) evalWith(v ssa.Value, env map[string]int64, d int) (int64, bool) {
@@ -236,7 +299,7 @@ func (w *waBuilder) evalWith(v ssa.Value, env map[string]int64, d int) (int64, b
 		case token.OR:
 			return a | b, true
 		}
-	case *ssa.UnOp, *ssa.Field:
+	case *ssa.UnOp, *ssa.Field, *ssa.Parameter:
 		if val, ok := env[accessPath(v)]; ok {
 			return val, true
 		}
